@@ -131,7 +131,24 @@ func TestVerifBounded_C19_Workers(t *testing.T) {
 			total += i + 1
 		}
 		cases++
-		res, err := Map(set, threads, maxChunk)
+		type mapOut struct {
+			res []interface{}
+			err error
+		}
+		ch := make(chan mapOut, 1)
+		go func() {
+			res, err := Map(set, threads, maxChunk)
+			ch <- mapOut{res, err}
+		}()
+		var res []interface{}
+		var err error
+		select {
+		case o := <-ch:
+			res, err = o.res, o.err
+		case <-time.After(10 * time.Second):
+			// a Map that never returns keeps its goroutines spinning: stop here, the remaining calls would only pile up
+			t.Fatalf("Map(n=%d, threads=%d, maxChunk=%d) did not return within 10 s", n, threads, maxChunk)
+		}
 		if err != nil {
 			t.Errorf("Map(n=%d, threads=%d, maxChunk=%d): %v", n, threads, maxChunk, err)
 			continue
